@@ -1,12 +1,19 @@
 // Unit c39_account_deposits -- property C39 "Account deposit rules are enforced exactly"
-// Real code: radix-engine/src/blueprints/account/blueprint.rs :: AccountBlueprint::{get_resource_preference,
-//              does_vault_exist, get_default_deposit_rule, is_deposit_allowed,
-//              validate_badge_is_authorized_depositor, validate_badge_is_present, deposit_batch,
-//              try_deposit_or_refund, try_deposit_batch_or_refund, try_deposit_or_abort,
-//              try_deposit_batch_or_abort}
+// Real code: radix-engine/src/blueprints/account/blueprint.rs ::
+//   AccountBlueprint::{get_resource_preference, does_vault_exist, get_default_deposit_rule, is_deposit_allowed,
+//     validate_badge_is_authorized_depositor, validate_badge_is_present, deposit_batch, try_deposit_or_refund,
+//     try_deposit_batch_or_refund, try_deposit_or_abort, try_deposit_batch_or_abort}
+//   AccountBlueprintBottlenoseExtension::{try_deposit_or_refund, try_deposit_batch_or_refund}   (current dispatch)
+//   impl From<AccountError> for RuntimeError :: from
 // Environment (trusted, shims/sysapi_c39.rs): ghost-heap SystemApi (deposit-rule field, the three key-value
 // collections), bucket reads, the auth-zone oracle behind Runtime::assert_access_rule, emit_event, and the
 // assumed effect of AccountBlueprint::deposit (vault internals are not under contract).
+// shims/iter_chain_c39.rs: std semantics of `.into_iter().filter_map(g).collect::<Vec<_>>()`.
+// The ONLY non-catalogued rewrites (RX) are in the two try_deposit_batch_or_refund: the first half of the
+// iterator chain, `buckets.iter().map(F).collect::<Result<Vec<_>,_>>()?` with F capturing `&mut api`, is
+// rewritten into the loop std runs for it (Verus rejects closures capturing `&mut`); the bodies of the
+// closures (`Self::is_deposit_allowed(&resource_address, api)`, `(bucket, can_be_deposited)`,
+// `if !can_be_deposited { Some(Bucket(bucket.0)) } else { None }`) stay in place, verbatim.
 use vstd::prelude::*;
 verus! {
 /*@include shims/rt.rs @*/
@@ -172,8 +179,9 @@ pub mod unit {
         }
     }
     /// one RejectedDepositEvent per refused bucket, naming its resource
-    pub open spec fn rejected_events(bs: Seq<Bucket>) -> Seq<GhostEvent> {
-        Seq::new(bs.len(), |i: int| GhostEvent::Rejected(bucket_resource(bs[i])))
+    pub open spec fn rejected_events(bs: Seq<Bucket>) -> Seq<GhostEvent> { rejected_upto(bs, bs.len()) }
+    pub open spec fn rejected_upto(bs: Seq<Bucket>, n: nat) -> Seq<GhostEvent> {
+        Seq::new(n, |i: int| GhostEvent::Rejected(bucket_resource(bs[i])))
     }
     pub proof fn lemma_offending_empty(h: Heap, bs: Seq<Bucket>)
         ensures (offending(h, bs).len() == 0) <==> all_allowed(h, bs)
@@ -221,10 +229,6 @@ pub mod unit {
             lemma_filter_is_offending(h, bs1, ps1);
         }
     }
-    pub proof fn lemma_rejected_push(bs: Seq<Bucket>, x: Bucket)
-        ensures rejected_events(bs.push(x)) =~= rejected_events(bs).push(GhostEvent::Rejected(bucket_resource(x)))
-    {}
-
     // ------------------------------------------------------------------------------------------
     // frame lemmas
     // ------------------------------------------------------------------------------------------
@@ -431,7 +435,7 @@ pub mod unit {
         @subst <<) }) .collect::<Result<Vec<_>, _>>()? .into_iter()>> => <<}) }; c39_pairs.push(c39_item?); proof { assert(buckets@.take(c39_it.index@ as int + 1) =~= buckets@.take(c39_it.index@ as int).push(*bucket)); } } proof { assert(buckets@.take(buckets@.len() as int) =~= buckets@); } proof { c39_ps = c39_pairs.seq(); } c39_pairs } .into_iter()>> why: end of the loop that stands for map+collect: `?` on each item (first Err returned), payload pushed; the gathered pairs then go through the verbatim `.into_iter().filter_map(..).collect()`
         @before <<let offending_buckets>> #1
             let ghost mut c39_ps: Seq<(&Bucket, bool)> = Seq::empty();
-        @before <<if offending_buckets.is_empty()>> #1
+        @after <<.collect::<Vec<_>>()>> #1
             let ghost ob = offending_buckets@;
             proof {
                 assert(ob == filter_map_spec(c39_ps, keep_refused()));
@@ -444,16 +448,8 @@ pub mod unit {
                 typed(api.world().heap),
                 api.world().heap == old(api).world().heap, api.world().auth == old(api).world().auth,
                 api.world().deposited == old(api).world().deposited,
-                api.world().events =~= old(api).world().events + rejected_events(ob.take(it.index@ as int)),
+                api.world().events =~= old(api).world().events + rejected_upto(ob, it.index@ as nat),
                 api.fhandles() =~= old(api).fhandles() && api.khandles() =~= old(api).khandles(),
-        @before <<Runtime::emit_event(api, event)>> #1
-            proof {
-                let i = it.index@ as int;
-                assert(ob.take(i + 1) =~= ob.take(i).push(bucket));
-                lemma_rejected_push(ob.take(i), bucket);
-            }
-        @before <<Ok(Some(buckets))>> #1
-            proof { assert(ob.take(ob.len() as int) =~= ob); }
         @subst <<.filter_map(|(bucket, can_be_deposited)| {>> => <<.filter_map(|c39_p: (&Bucket, bool)| -> (r: Option<Bucket>) ensures r == (if !c39_p.1 { Some(*c39_p.0) } else { None::<Bucket> }) { let (bucket, can_be_deposited) = c39_p;>> why: Verus supports only plain variables as closure parameters; the tuple pattern of the parameter becomes a `let` at the start of the (verbatim) body, and the closure gets its Verus signature
         @*/
 
@@ -561,7 +557,7 @@ pub mod unit {
         @subst <<) }) .collect::<Result<Vec<_>, _>>()? .into_iter()>> => <<}) }; c39_pairs.push(c39_item?); proof { assert(buckets@.take(c39_it.index@ as int + 1) =~= buckets@.take(c39_it.index@ as int).push(*bucket)); } } proof { assert(buckets@.take(buckets@.len() as int) =~= buckets@); } proof { c39_ps = c39_pairs.seq(); } c39_pairs } .into_iter()>> why: end of the loop that stands for map+collect: `?` on each item (first Err returned), payload pushed; the gathered pairs then go through the verbatim `.into_iter().filter_map(..).collect()`
         @before <<let offending_buckets>> #1
             let ghost mut c39_ps: Seq<(&Bucket, bool)> = Seq::empty();
-        @before <<if offending_buckets.is_empty()>> #1
+        @after <<.collect::<Vec<_>>()>> #1
             let ghost ob = offending_buckets@;
             proof {
                 assert(ob == filter_map_spec(c39_ps, keep_refused()));
@@ -574,32 +570,16 @@ pub mod unit {
                 typed(api.world().heap),
                 api.world().heap == old(api).world().heap, api.world().auth == old(api).world().auth,
                 api.world().deposited == old(api).world().deposited,
-                api.world().events =~= old(api).world().events + rejected_events(ob.take(it.index@ as int)),
+                api.world().events =~= old(api).world().events + rejected_upto(ob, it.index@ as nat),
                 api.fhandles() =~= old(api).fhandles() && api.khandles() =~= old(api).khandles(),
-        @before <<Runtime::emit_event(api, event)>> #1
-            proof {
-                let i = it.index@ as int;
-                assert(ob.take(i + 1) =~= ob.take(i).push(bucket));
-                lemma_rejected_push(ob.take(i), bucket);
-            }
-        @before <<Ok(Some(buckets))>> #1
-            proof { assert(ob.take(ob.len() as int) =~= ob); }
         @loop 2 iter it
             invariant
                 ob == offending_buckets@,
                 typed(api.world().heap),
                 api.world().heap == old(api).world().heap, api.world().auth == old(api).world().auth,
                 api.world().deposited == old(api).world().deposited,
-                api.world().events =~= old(api).world().events + rejected_events(ob.take(it.index@ as int)),
+                api.world().events =~= old(api).world().events + rejected_upto(ob, it.index@ as nat),
                 api.fhandles() =~= old(api).fhandles() && api.khandles() =~= old(api).khandles(),
-        @before <<Runtime::emit_event(api, event)>> #2
-            proof {
-                let i = it.index@ as int;
-                assert(ob.take(i + 1) =~= ob.take(i).push(bucket));
-                lemma_rejected_push(ob.take(i), bucket);
-            }
-        @before <<Ok(Some(buckets))>> #2
-            proof { assert(ob.take(ob.len() as int) =~= ob); }
         @subst <<.filter_map(|(bucket, can_be_deposited)| {>> => <<.filter_map(|c39_p: (&Bucket, bool)| -> (r: Option<Bucket>) ensures r == (if !c39_p.1 { Some(*c39_p.0) } else { None::<Bucket> }) { let (bucket, can_be_deposited) = c39_p;>> why: Verus supports only plain variables as closure parameters; the tuple pattern of the parameter becomes a `let` at the start of the (verbatim) body, and the closure gets its Verus signature
         @*/
     }
